@@ -58,7 +58,6 @@ INVARIANT DoneOK
 INVARIANT NoLossAtSet
 INVARIANT PopSafe
 INVARIANT NoDoubleRelease
-INVARIANT SparseAgrees
 INVARIANT NeverSwallowed
 INVARIANT RaisedOnlyOnFault
 PROPERTY ChildrenFirstStep
@@ -85,7 +84,9 @@ CHECK_DEADLOCK FALSE
 
 def conf_module(name, base, accepts, apexes, faults="none"):
     f = {"none": "{{}}", "one": "{{}} \\cup {{p} : p \\in UpTo(Depth)}"}[faults]
-    return tla.module(name, [base], [("ConfAccept", tla.lit(set(accepts))), ("ConfApex", tla.lit(set(apexes))), ("ConfFaults", f)])
+    # T_SparseAgrees: the sparse computation of the live set (SparseLive.tla, used for deep pyramids) is the live set
+    return tla.module(name, [base], [("ConfAccept", tla.lit(set(accepts))), ("ConfApex", tla.lit(set(apexes))), ("ConfFaults", f),
+                                     "ASSUME \\A cA \\in ConfAccept, ca \\in ConfApex : SLiveSet(cA, ca) = LiveSet(cA, ca)"])
 
 
 def build_pyramid(depth, acc, apex, generic=False):
